@@ -239,6 +239,10 @@ def axis_nodes(t, n, axis, alt=()):
         return sibs[i + 1:] if axis == 'following-sibling' else sibs[:i][::-1]
     if axis == 'following':
         # nodes after n in document order, not descendants, not attributes/namespaces
+        if k in ('attribute', 'namespace') and 'attr_following_empty' in alt:
+            return []          # recorded deviation: no following axis from attribute / namespace nodes
+        if k in ('attribute', 'namespace') and 'following_of_parent' in alt:
+            return [x for x in t.nodes[n.parent.end + 1:] if x.kind not in ('attribute', 'namespace')]   # libxml2's reading
         if k in ('attribute', 'namespace'):
             start = n.parent.idx + 1 + len(n.parent.nss) + len(n.parent.attrs)  # children of the parent follow
             # following of an attribute: everything after the attribute in document order except
